@@ -1,6 +1,123 @@
-//! C27 (WakeState / Dfir::run) -- filled in later.
+//! C27: drives the real `Dfir::run` with a manual executor and fires the external waker
+//! (`Context::waker()`, i.e. `WakeState::wake_by_ref`) at chosen program points, through the
+//! `#[cfg(hydro_verif)] verif_point` hook of dfir_rs::scheduled::context.
+//!
+//! Program points (= the runner step about to execute): 0 run_available store(false),
+//! 1 run_tick swap, 2 tick body, 3 run_tick load, 4 run_available swap, 5 yield_now,
+//! 6 AtomicWaker::register, 7 idle load, 8 about to return Pending, 9 parked (executor idle).
+//! Case: {"k":"wake","wakes":[[point, occurrence], ...]}: wake i fires the occurrence-th time
+//! (0-based) its point is reached.  Log: ["p",n] point reached, ["t"] tick body runs,
+//! ["w",i] wake i fired, ["park"] the runner is parked and not woken.
+use std::cell::RefCell;
+use std::future::Future;
+use std::sync::Arc;
+use std::sync::atomic::{AtomicBool, Ordering};
+use std::task::{Context as TaskContext, Poll, Wake, Waker};
+
+use dfir_rs::scheduled::context::{Context, Dfir, TickClosure, verif};
 use hvcommon::{Value, json};
 
-pub fn run_wake(_case: &Value) -> Value {
-    json!({"bad_case": "not built yet"})
+struct Sched {
+    wakes: Vec<(u8, u32, bool)>, // point, occurrence, fired
+    counts: [u32; 10],
+    log: Vec<Value>,
+    waker: Option<Waker>,
+}
+
+thread_local! {
+    static SCHED: RefCell<Option<Sched>> = const { RefCell::new(None) };
+}
+
+/// point reached: log it and fire the wakes scheduled here (the waker is called with the
+/// scheduler borrow released: it re-enters nothing of ours, but keep it clean)
+fn point(p: u8) {
+    let (to_fire, waker) = SCHED.with(|s| {
+        let mut g = s.borrow_mut();
+        let sc = g.as_mut().expect("scheduler installed");
+        let occ = sc.counts[p as usize];
+        sc.counts[p as usize] += 1;
+        if p != 9 {
+            sc.log.push(json!(["p", p]));
+        }
+        let mut fire = Vec::new();
+        for (i, w) in sc.wakes.iter_mut().enumerate() {
+            if w.0 == p && w.1 == occ && !w.2 {
+                w.2 = true;
+                fire.push(i);
+            }
+        }
+        for i in &fire {
+            sc.log.push(json!(["w", i]));
+        }
+        (fire.len(), sc.waker.clone())
+    });
+    for _ in 0..to_fire {
+        waker.as_ref().unwrap().wake_by_ref();
+    }
+}
+
+struct CountTick;
+impl TickClosure for CountTick {
+    fn call_tick<'a>(&'a mut self, _ctx: &'a mut Context) -> impl Future<Output = bool> + 'a {
+        SCHED.with(|s| s.borrow_mut().as_mut().unwrap().log.push(json!(["t"])));
+        std::future::ready(false)
+    }
+}
+
+struct TaskWaker(AtomicBool);
+impl Wake for TaskWaker {
+    fn wake(self: Arc<Self>) {
+        self.0.store(true, Ordering::SeqCst);
+    }
+    fn wake_by_ref(self: &Arc<Self>) {
+        self.0.store(true, Ordering::SeqCst);
+    }
+}
+
+pub fn run_wake(case: &Value) -> Value {
+    let wakes: Vec<(u8, u32, bool)> = case["wakes"]
+        .as_array()
+        .unwrap()
+        .iter()
+        .map(|w| (w[0].as_u64().unwrap() as u8, w[1].as_u64().unwrap() as u32, false))
+        .collect();
+    let ctx = Context::default();
+    let ext_waker = ctx.waker();
+    SCHED.with(|s| {
+        *s.borrow_mut() = Some(Sched { wakes, counts: [0; 10], log: Vec::new(), waker: Some(ext_waker) })
+    });
+    verif::set_hook(point);
+    let mut df = Dfir::new(CountTick, ctx, None, None);
+    let task = Arc::new(TaskWaker(AtomicBool::new(false)));
+    let task_waker = Waker::from(task.clone());
+    let mut cx = TaskContext::from_waker(&task_waker);
+    let mut polls = 0u32;
+    {
+        let mut fut = std::pin::pin!(df.run());
+        loop {
+            polls += 1;
+            if polls > 200 {
+                SCHED.with(|s| s.borrow_mut().as_mut().unwrap().log.push(json!(["runaway"])));
+                break;
+            }
+            match fut.as_mut().poll(&mut cx) {
+                Poll::Ready(_) => unreachable!(),
+                Poll::Pending => {}
+            }
+            if task.0.swap(false, Ordering::SeqCst) {
+                continue; // woken (yield_now or the AtomicWaker): poll again
+            }
+            // parked and not woken: executor idle = point 9
+            point(9);
+            if task.0.swap(false, Ordering::SeqCst) {
+                continue;
+            }
+            SCHED.with(|s| s.borrow_mut().as_mut().unwrap().log.push(json!(["park"])));
+            break;
+        }
+    }
+    verif::set_hook(|_| {});
+    let sc = SCHED.with(|s| s.borrow_mut().take().unwrap());
+    let unfired: Vec<usize> = sc.wakes.iter().enumerate().filter(|(_, w)| !w.2).map(|(i, _)| i).collect();
+    json!({ "log": sc.log, "unfired": unfired })
 }
